@@ -346,6 +346,72 @@ fn suffix_cases<B: Backend, P: Prims>(opts: &Opts, rep: &mut Report, idx: &mut u
     }
 }
 
+/// reference-built tokens whose footer is valid JSON in a spelling the library itself would not
+/// produce, opened through typed footers: what is authenticated is the footer *bytes of the token*
+fn typed_footer_cases<B: Backend, P: Prims>(opts: &Opts, rep: &mut Report, idx: &mut u64) {
+    use paseto_json::Json;
+    use serde_json::Value;
+
+    use crate::monitors::c02::LossyFooter;
+    let stream = format!("c03.{}.typed-footer", B::NAME);
+    let mut krng = Rng::derive(opts.seed, &stream, 0);
+    let sk_raw = B::gen_secret(&mut krng);
+    let kp = KeyPair::<B>::from_raw(Purp::Public, &sk_raw).expect("key");
+    let pk_raw = kp.raw().1;
+    let texts = crate::typed::noncanonical_json();
+    let reps = if B::VER == 1 { opts.size(2, 10) } else { opts.size(6, 60) };
+    for ftxt in texts.iter().copied().chain(["KID-7", " kid-7 "]) {
+        for _ in 0..reps {
+            *idx += 1;
+            if !opts.mine(*idx) {
+                continue;
+            }
+            let mut rng = Rng::derive(opts.seed, &stream, *idx);
+            let len = gen_len(&mut rng, false);
+            let msg = gen_bytes(&mut rng, len);
+            let aad = gen_aad::<B>(&mut rng);
+            let key: [u8; 32] = rng.arr();
+            let nonce = rng.bytes(B::LOCAL_NONCE);
+            let footer = ftxt.as_bytes();
+            let lossy = !ftxt.starts_with(['{', ' ']) || ftxt.contains("kid-7");
+            let kl = KeyPair::<B>::Local(local_key::<B>(&key));
+            let ltok = join_token(&kl.header(), &r::local_seal::<P>(B::VER, &key, &nonce, &msg, footer, &aad), footer);
+            let pre = r::public_preauth(B::VER, &pk_raw, &msg, footer, &aad);
+            let sig: Option<Vec<u8>> = match B::VER {
+                1 => P::rsa_pss_sign(&sk_raw, &pre),
+                3 => P::p384_sign(sk_raw.as_slice().try_into().unwrap(), &pre).map(|s| s.to_vec()),
+                _ => Some(P::ed25519_sign(sk_raw[..32].try_into().unwrap(), &pre).to_vec()),
+            };
+            let ptok = sig.map(|sig| join_token(&kp.header(), &[&msg[..], &sig[..]].concat(), footer));
+            for (k, tok) in [(&kl, Some(ltok)), (&kp, ptok)] {
+                let Some(tok) = tok else { continue };
+                let pn = k.purpose().name();
+                let d = |what: &str| json!({"backend": B::NAME, "purpose": pn, "reference_family": P::NAME, "footer_text": ftxt, "msg": hx_short(&msg), "aad": hx_short(&aad), "token": tok.chars().take(400).collect::<String>(), "what": what});
+                let res = if lossy {
+                    guard(|| k.open_t::<Raw, LossyFooter>(&tok, &aad).map(|(c, f, s)| (c.0, f.0 == "kid-7", s)))
+                } else {
+                    let want: Value = serde_json::from_str(ftxt).expect("catalogue is JSON");
+                    guard(|| k.open_t::<Raw, Json<Value>>(&tok, &aad).map(|(c, f, s)| (c.0, f.0 == want, s)))
+                };
+                match res {
+                    Ok(Ok((c, f_ok, shown))) => {
+                        if c != msg || !f_ok {
+                            rep.violation(&format!("C03|{}|{pn}|reference-token-wrong-claims:typed-footer", B::NAME), d("claims or decoded footer differ"));
+                        }
+                        if shown != tok {
+                            rep.violation(&format!("C03|{}|{pn}|typed-footer-token-prints-differently", B::NAME), d(&format!("parse then Display gives {}", shown.chars().take(300).collect::<String>())));
+                        }
+                    }
+                    Ok(Err(e)) => rep.violation(&format!("C03|{}|{pn}|reference-token-rejected:{}:typed-footer", B::NAME, err_kind(&e)), d("a valid token was rejected because its footer is not spelled the way the typed footer would encode it")),
+                    Err(p) => rep.violation(&format!("C03|{}|{pn}|open-panic", B::NAME), d(&p)),
+                }
+                rep.case(&format!("{}.{pn}.typed-footer", B::NAME), fnv(tok.as_bytes()), true);
+                rep.sample_class(&format!("{}.{pn}.typed-footer", B::NAME), 1, || d("accepted, prints identically"));
+            }
+        }
+    }
+}
+
 /// one signing key object used for a long sequence of messages of every length 0..=600
 fn public_sequence<B: Backend, P: Prims>(opts: &Opts, rep: &mut Report) {
     if opts.shard != 1 % opts.nshards && opts.only.is_none() {
@@ -391,6 +457,9 @@ fn backend<B: Backend, P: Prims>(opts: &Opts, rep: &mut Report) {
     }
     if opts.wants_part("suffix") {
         suffix_cases::<B, P>(opts, rep, &mut idx);
+    }
+    if opts.wants_part("typed") {
+        typed_footer_cases::<B, P>(opts, rep, &mut idx);
     }
     if opts.wants_part("local") {
         local_cases::<B, P>(opts, rep, &mut idx);
